@@ -76,6 +76,57 @@ def nextAns : List Bool → Bool × List Bool
 
 /-! ### runQueue -/
 
+/-- Result of one iteration of the `tryrun` loop (one queue entry). -/
+structure IterOut where
+  calls : List Call          -- calls made for this entry, in order
+  stop : Bool                -- `overquota = sorted[i:]; break tryrun`
+  un : Unalloc               -- `unalloc` afterwards
+  dont : List IType          -- `dontstart` afterwards
+  script : List Bool         -- answers not yet consumed
+deriving Repr
+
+/-- The start attempt for a Locked entry once a worker is accounted for:
+`if dontstart[it] {} else if KillContainer(…) {} else if StartContainer(…) {} else { dontstart[it] = true }`.
+`pre` are the calls already made for this entry. -/
+def startAttempt (e : Ent) (un : Unalloc) (dont : List IType) (script : List Bool) (pre : List Call) :
+    IterOut :=
+  if dont.contains e.itype then ⟨pre, false, un, dont, script⟩
+  else
+    let ks := nextAns script
+    if ks.1 then ⟨pre ++ [.kill e.uuid true], false, un, dont, ks.2⟩
+    else
+      let ss := nextAns ks.2
+      ⟨pre ++ [.kill e.uuid false, .start e.itype e.uuid ss.1], false, un,
+        if ss.1 then dont else e.itype :: dont, ss.2⟩
+
+/-- One iteration of the `tryrun` loop. `running u` ⇔ `u` is a key of the `Running()` snapshot
+taken before the loop; `dont` is `dontstart`. -/
+def iter (running : Uuid → Bool) (e : Ent) (un : Unalloc) (dont : List IType) (script : List Bool) :
+    IterOut :=
+  if running e.uuid || decide (e.prio < 1) then ⟨[], false, un, dont, script⟩
+  else match e.state with
+  | .queued =>
+    -- `if unalloc[it] < 1 && sch.pool.AtQuota()` (short-circuit: AtQuota only asked when < 1)
+    let askQuota := decide (un.get e.itype < 1)
+    let qs := if askQuota then nextAns script else (false, script)
+    let pre : List Call := if askQuota then [.atQuota qs.1] else []
+    if qs.1 then ⟨pre, true, un, dont, qs.2⟩
+    else
+      let ks := nextAns qs.2
+      if ks.1 then ⟨pre ++ [.kill e.uuid true], false, un, dont, ks.2⟩
+      else ⟨pre ++ [.kill e.uuid false, .goLock e.uuid], false, un.dec e.itype, dont, ks.2⟩
+  | .locked =>
+    -- first the worker accounting, then the start attempt
+    if un.get e.itype > 0 then startAttempt e (un.dec e.itype) dont script []
+    else
+      let qs := nextAns script
+      if qs.1 then ⟨[.atQuota true, .unlock e.uuid], true, un, dont, qs.2⟩
+      else
+        let cs := nextAns qs.2
+        if cs.1 then startAttempt e un dont cs.2 [.atQuota false, .create e.itype true]
+        else ⟨[.atQuota false, .create e.itype false], false, un, dont, cs.2⟩
+  | _ => ⟨[], false, un, dont, script⟩
+
 /-- What is known after the `tryrun` loop. -/
 structure LoopOut where
   calls : List Call          -- calls made by the loop, in order
@@ -83,64 +134,16 @@ structure LoopOut where
   unalloc : Unalloc          -- the decremented map
 deriving Repr
 
-/-- The start attempt for a Locked entry once a worker is accounted for
-(`if dontstart[it] … else if KillContainer … else if StartContainer …`); `k` continues the loop
-with the new `dontstart` set and the remaining script; `pre` are the calls already made for this
-entry. -/
-def lockedTail (e : Ent) (dont : List IType) (script : List Bool) (pre : List Call)
-    (k : List IType → List Bool → LoopOut) : LoopOut :=
-  if dont.contains e.itype then
-    let o := k dont script
-    { o with calls := pre ++ o.calls }
-  else
-    let (kl, script1) := nextAns script
-    if kl then
-      let o := k dont script1
-      { o with calls := pre ++ .kill e.uuid true :: o.calls }
-    else
-      let (s, script2) := nextAns script1
-      let o := k (if s then dont else e.itype :: dont) script2
-      { o with calls := pre ++ .kill e.uuid false :: .start e.itype e.uuid s :: o.calls }
-
-/-- The `tryrun` loop over the sorted queue. `running u` ⇔ `u` is a key of the `Running()`
-snapshot taken before the loop. `dont` is `dontstart`, the per-type latch set after a failed
-`StartContainer`. -/
+/-- The `tryrun` loop over the sorted queue. -/
 def tryrun (running : Uuid → Bool) :
     List Ent → Unalloc → List IType → List Bool → LoopOut
   | [], un, _, _ => ⟨[], [], un⟩
   | e :: rest, un, dont, script =>
-    if running e.uuid || decide (e.prio < 1) then tryrun running rest un dont script
-    else match e.state with
-    | .queued =>
-      -- `if unalloc[it] < 1 && sch.pool.AtQuota()` (short-circuit: AtQuota only asked when < 1)
-      let askQuota := decide (un.get e.itype < 1)
-      let qs := if askQuota then nextAns script else (false, script)
-      let pre : List Call := if askQuota then [.atQuota qs.1] else []
-      if qs.1 then ⟨pre, e :: rest, un⟩
-      else
-        let ks := nextAns qs.2
-        if ks.1 then
-          let o := tryrun running rest un dont ks.2
-          { o with calls := pre ++ .kill e.uuid true :: o.calls }
-        else
-          let o := tryrun running rest (un.dec e.itype) dont ks.2
-          { o with calls := pre ++ .kill e.uuid false :: .goLock e.uuid :: o.calls }
-    | .locked =>
-      -- first the worker accounting, then the start attempt
-      if un.get e.itype > 0 then
-        lockedTail e dont script [] (fun d s => tryrun running rest (un.dec e.itype) d s)
-      else
-        let qs := nextAns script
-        if qs.1 then ⟨[.atQuota true, .unlock e.uuid], e :: rest, un⟩
-        else
-          let cs := nextAns qs.2
-          if cs.1 then
-            lockedTail e dont cs.2 [.atQuota false, .create e.itype true]
-              (fun d s => tryrun running rest un d s)
-          else
-            let o := tryrun running rest un dont cs.2
-            { o with calls := .atQuota false :: .create e.itype false :: o.calls }
-    | _ => tryrun running rest un dont script
+    let r := iter running e un dont script
+    if r.stop then ⟨r.calls, e :: rest, r.un⟩
+    else
+      let o := tryrun running rest r.un r.dont r.script
+      { o with calls := r.calls ++ o.calls }
 
 /-- `if len(overquota) > 0 { … }`: unlock every Locked entry of the tail. The shutdown requests
 that follow range over a Go map, so their order is unspecified; see `shutdownTypes`. -/
@@ -221,6 +224,54 @@ def asyncEffect (latchHeld : Bool) (stateNow : Option CState) (op : Op) (u : Uui
   | .cancel => [.queueCancel u]
   | .kill => [.poolKill u, .poolForget u]
   | .requeue => [.queueUnlock u]
+
+/-! ### goroutines competing for the latch
+
+Every `go sch.lockContainer/cancel/kill/requeue` is a goroutine that first calls `uuidLock`
+(`pending`), gives up when refused, otherwise performs its queue/pool calls while `holding` and
+finally `uuidUnlock`s. `LStep` is any interleaving of any number of such goroutines. -/
+
+inductive GPhase where
+  | pending | holding | done
+deriving DecidableEq, Repr
+
+structure Gor where
+  uuid : Uuid
+  op : Op
+  phase : GPhase
+deriving DecidableEq, Repr
+
+structure LSys where
+  latch : Latch
+  gs : List Gor
+deriving Repr
+
+inductive LStep : LSys → LSys → Prop where
+  /-- a pass spawns a goroutine -/
+  | spawn (s : LSys) (u : Uuid) (op : Op) :
+      LStep s { s with gs := ⟨u, op, .pending⟩ :: s.gs }
+  /-- `uuidLock` succeeds -/
+  | acquire (l : Latch) (pre post : List Gor) (u : Uuid) (op : Op)
+      (h : (uuidLock l u op).1 = true) :
+      LStep ⟨l, pre ++ ⟨u, op, .pending⟩ :: post⟩
+            ⟨(uuidLock l u op).2, pre ++ ⟨u, op, .holding⟩ :: post⟩
+  /-- `uuidLock` is refused: the goroutine returns without doing anything -/
+  | refuse (l : Latch) (pre post : List Gor) (u : Uuid) (op : Op)
+      (h : (uuidLock l u op).1 = false) :
+      LStep ⟨l, pre ++ ⟨u, op, .pending⟩ :: post⟩
+            ⟨(uuidLock l u op).2, pre ++ ⟨u, op, .done⟩ :: post⟩
+  /-- the deferred `uuidUnlock` -/
+  | release (l : Latch) (pre post : List Gor) (u : Uuid) (op : Op) :
+      LStep ⟨l, pre ++ ⟨u, op, .holding⟩ :: post⟩
+            ⟨uuidUnlock l u, pre ++ ⟨u, op, .done⟩ :: post⟩
+
+inductive LReach : LSys → Prop where
+  | init : LReach ⟨[], []⟩
+  | step {s t : LSys} : LReach s → LStep s t → LReach t
+
+/-- number of goroutines currently performing an operation on `u` -/
+def inFlight (s : LSys) (u : Uuid) : Nat :=
+  s.gs.countP (fun g => g.phase == .holding && g.uuid == u)
 
 /-! ### sync -/
 
